@@ -5,6 +5,9 @@ import random
 
 WORDS = ["a", "seg", "main", "audio-1", "vid,eo", "k=v", "a b", "x,y=z", "日本語", "é", "ü,ñ", "😀", "A/B", "p:q", "#h", "1", "0x1F", "NONE", "YES", "id.1"]
 URIS = ["a.ts", "b.ts", "http://media.example.com/first.ts", "https://p.example/s/1.ts?x=1&y=2", "seg-1.mp4", "../up/セグ.ts", "fileSequence2680.ts", "u", "main.mp4"]
+# a URI LINE is the whole (trimmed) line, whatever it contains, as long as it does not START with '#': quotes, commas, '=', blanks
+# inside, a '#' further in, text that would be a tag with a '#' in front
+LINE_URIS = URIS + ['"quoted.ts"', "a b.ts", "a,b=c.ts", "seg#frag.ts", "EXTINF:1,", "EXT-X-ENDLIST", 'x"y.ts', "'a'.ts", "a\\b.ts", "%20.ts", "http://h/p?a=1,b=2#f", "日本 語.ts"]
 KEYFORMATS = [None, "identity", "com.apple.streamingkeydelivery", "urn:uuid:edef8ba9-79d6-4ace-a3c8-27dcd51d21ed", "com.microsoft.playready", "my.format", "f2"]
 # other formats that only look like the well-known ones (RFC 8216: the KEYFORMAT string is compared as written)
 KEYFORMATS_LOOKALIKE = ["Identity", "IDENTITY", "com.apple.StreamingKeyDelivery", "URN:UUID:EDEF8BA9-79D6-4ACE-A3C8-27DCD51D21ED", "com.microsoft.PlayReady",
@@ -351,7 +354,7 @@ def gen_media(rng, max_segments=8, plain=False, key_weight=0.35, allow_k1=False,
             if rng.random() < 0.5:
                 mp.append(("BYTERANGE", q("%d@%d" % (rng.randint(0, 1000), rng.randint(0, 1000)) if rng.random() < 0.8 else str(rng.randint(0, 99)))))
             tags.append("#EXT-X-MAP:" + lay.attrs(mp)); hit("MAP")
-        uri = rng.choice(URIS)
+        uri = rng.choice(LINE_URIS)
         r = rng.random()
         if r < 0.25:
             off = rng.randint(0, 10**6) if rng.random() < 0.8 else rng.choice([0, 2**32, 2**62])
@@ -471,7 +474,7 @@ def gen_master(rng, max_tags=6, plain=False, features=None, consistent=True, fr3
             elif mode == "group" and pool("CLOSED-CAPTIONS") and rng.random() < 0.6:
                 p.append(("CLOSED-CAPTIONS", q(rng.choice(pool("CLOSED-CAPTIONS")))))
             lines.append("#EXT-X-STREAM-INF:" + lay.attrs(p))
-            lines.append(rng.choice(URIS)); hit("STREAM-INF")
+            lines.append(rng.choice(LINE_URIS)); hit("STREAM-INF")
     seen = set()
     for _ in range(rng.randint(0, 3)):
         did, lang = rng.choice(["com.example.title", "com.example.lyrics", "x"]), rng.choice([None, "en", "es"])
